@@ -38,12 +38,12 @@ Qed.
 
 Lemma c12_returns_multiplexed_proof : C12_returns_multiplexed.
 Proof.
-  split; [|split].
-  - intros s (n & sup & sched & ->) H. apply (C12_MuxLive.mx_closing n sup sched). apply is_close_eq. exact H.
-  - intros s (n & sup & sched & ->) Ht Hd. apply C12_MuxLive.progress; [|exact Hd].
-    destruct (C12_MuxLive.ph_run n sup sched) as [A B]. split; [exact A | split; [exact B | exact Ht]].
+  intros fx. split; [|split].
+  - intros s (n & sup & sched & ->) H. apply (C12_MuxLive.mx_closing fx n sup sched). apply is_close_eq. exact H.
+  - intros s (n & sup & sched & ->) Ht Hd. apply (C12_MuxLive.progress fx); [|exact Hd].
+    destruct (C12_MuxLive.ph_run fx n sup sched) as [A B]. split; [exact A | split; [exact B | exact Ht]].
   - exists C12_MuxLive.rank. intros s (n & sup & sched0 & ->) Ht sched Hf.
-    apply C12_MuxLive.mx_fair_termination; assumption.
+    apply (C12_MuxLive.mx_fair_termination fx); assumption.
 Qed.
 
 Lemma c12_returns_file_proof : C12_returns_file.
@@ -71,12 +71,14 @@ Qed.
 
 Lemma c12_no_call_after_proof : C12_no_call_after.
 Proof.
-  split; [|split; [|split; [|split; [|split]]]].
+  split; [|split; [|split; [|split; [|split; [|split]]]]].
   - intros fx s H sched. apply (C12_Eternal.et_no_call_after fx sched s H).
   - intros c s H sched. apply (C12_JoiningLive.jn_no_call_after c sched s H).
   - intros s H sched. apply (C12_Subscription.sb_no_call_after sched s H).
   - intros s H sched. apply (C12_FileSource.fs_no_call_after sched s H).
-  - intros s (A & B & C) sched. apply C12_MuxLive.mx_no_call_after; assumption.
+  - intros s (A & B) sched. apply C12_MuxLive.mx_no_call_when_terminating.
+    apply C12_MuxLive.terminated_terminating. exact B.
+  - intros s A sched. apply C12_MuxLive.mx_no_call_when_terminating. exact A.
   - exact C12_MuxShut.mx_no_start_after.
 Qed.
 
@@ -93,6 +95,23 @@ Lemma c12_restart_point_proof : C12_restart_point.
 Proof.
   intros fx sup sched post r pre slot H. rewrite last_accepted_same.
   eapply C12_Eternal.et_restart_point. exact H.
+Qed.
+
+Lemma c12_mux_unfixed_late_call_proof : C12_mux_unfixed_late_call.
+Proof.
+  split.
+  - exists (run (Mx.step false) C12_MuxLive.late_sched (Mx.init 2 C12_MuxLive.late_sup)).
+    split; [|vm_compute; reflexivity].
+    destruct C12_MuxLive.mx_unfixed_late_call as (A & B & C & D & _).
+    split; [exists 2, C12_MuxLive.late_sup, C12_MuxLive.late_sched; reflexivity|].
+    split; [exact A|]. split; [exact B|].
+    split; [exact (C12_MuxLive.all_term_of_map _ 2 C) | exists C12_MuxLive.late_cont; exact D].
+  - exists (run (Mx.step false) C12_MuxLive.late_sched_fail (Mx.init 2 C12_MuxLive.late_sup_fail)).
+    destruct C12_MuxLive.mx_unfixed_late_call_fail as (F & A & B & C & D & _).
+    split; [|exact F].
+    split; [exists 2, C12_MuxLive.late_sup_fail, C12_MuxLive.late_sched_fail; reflexivity|].
+    split; [exact A|]. split; [exact B|].
+    split; [exact (C12_MuxLive.all_term_of_map _ 2 C) | exists [Mx.TIn 1; Mx.TIn 1]; exact D].
 Qed.
 
 Lemma c12_eternal_unfixed_hangs_proof : C12_eternal_unfixed_hangs.
